@@ -327,6 +327,16 @@ def _b1(chk: Check, consts, label):
                 "expected_output": e["out"], "expected_observation_items": len(e["obs"]["res"]) + len(e["obs"]["byname"])})
 
 
+def _algo(chk: Check, consts, label):
+    """Algo layer (transcription of the multidict / reverse index / search order with the candidate
+    repairs) checked against the property-level model by TLC.  With FirstMatch = TRUE or SwappedIndex = TRUE
+    (the pinned tree's resolve_cap loop / register_proxy_cap indices) TLC produces the 5- and 3-state
+    counterexamples of the two genuine defects; the real code is never judged against this layer."""
+    cfg = ("SPECIFICATION ASpec\nCONSTANTS %s FirstMatch = FALSE SwappedIndex = FALSE\nCONSTRAINT Bound\n" % (CONSTS % consts)
+           + "".join("INVARIANT %s\n" % i for i in ("AlgoResolves", "AlgoTemps", "AlgoByName", "AlgoProxyStable")))
+    common.model_check(chk, "Caps_Algo", cfg, "Caps_Algo " + label)
+
+
 def run(chk: Check):
     chk.cov["rule"] = ("B1: every edge (inside the depth bound) of the exhaustively enumerated model replayed into fresh real "
                        "SessionManager/Session/ProxiedRegion/MITMProxyEventManager objects with the action's output and the "
@@ -343,7 +353,9 @@ def run(chk: Check):
         _b1(chk, dict(NR=2, MaxSeed=2, MaxTemp=2, Grants="1,2,3,4,5,6,7", Depth=5), "2r-d5")
         # two sessions, asset URL shared across sessions (no one-shot caps)
         _b1(chk, dict(NR=3, MaxSeed=2, MaxTemp=0, Grants="1,5,6", Depth=5), "3r-d5-small")
+        _algo(chk, dict(NR=2, MaxSeed=2, MaxTemp=1, Grants="1,3,5", Depth=5), "2r-d5-small")
     else:
-        _b1(chk, dict(NR=3, MaxSeed=2, MaxTemp=2, Grants="1,2,3,4,5,6,7", Depth=5), "3r-d5")
-        _b1(chk, dict(NR=2, MaxSeed=3, MaxTemp=1, Grants="1,2,3,5,6,7", Depth=7), "2r-d7")
+        _b1(chk, dict(NR=3, MaxSeed=2, MaxTemp=1, Grants="1,2,3,4,5,6,7", Depth=5), "3r-d5")
+        _b1(chk, dict(NR=2, MaxSeed=3, MaxTemp=2, Grants="1,2,3,4,5,6,7", Depth=6), "2r-d6")
+        _algo(chk, dict(NR=2, MaxSeed=2, MaxTemp=1, Grants="1,2,3,4,5,6,7", Depth=5), "2r-d5")
     chk.cov["exhaustive"] = True
